@@ -223,5 +223,16 @@ EvictFree == [][LET a == last' IN \A x \in {0, 5} :
                   IN [t1 EXCEPT !.evict = 0] = [t0 EXCEPT !.evict = 0] /\ t1.evict - x = t0.evict - evict
                ]_allvars
 
+(* the three as one action property (one evaluation of FDo shared; EvictFree with one other count) *)
+FLemmas == [][LET a  == last'
+                  t0 == FDo(FSt, a)
+                  t1 == FDo([FSt EXCEPT !.evict = evict + 5], a)
+              IN /\ FSt' = t0
+                 /\ [t1 EXCEPT !.evict = 0] = [t0 EXCEPT !.evict = 0] /\ t1.evict = t0.evict + 5
+                 /\ (a.op \in {"set", "setx", "setnx"} /\ ~Has(a.k) /\ size + Charge(a) <= cap) =>
+                       /\ order' = <<a.k>> \o order /\ val' = Ext(val, a.k, a.v)
+                       /\ sz' = Ext(sz, a.k, Charge(a)) /\ size' = size + Charge(a) /\ evict' = evict
+            ]_allvars
+
 View == <<order, val, sz, size, cap, sized>>
 =============================================================================
